@@ -40,6 +40,20 @@ def handleCog (fs : List (List String)) : Option String :=
       | _ => none
     let edge := fun (a b : Nat) => es.contains (a, b)
     some (if Verif.Comp.ppOkb (nat! k) (nats word) (nats old) (nats new) edge (nats par) (nats rank) then "ok" else "bad")
+  | [["slices"], toks, morphs, seps] =>
+    -- toks: token codes; morphs: one field per morpheme "a,b,c"; seps: the codes of the written separators
+    let ms : List (List Nat) := morphs.map fun s => (s.splitOn ",").filter (· ≠ "") |>.map nat!
+    let sp := nats seps
+    let isSep := fun (t : Nat) => sp.contains t
+    let sl := Verif.Partial.slices isSep (nats toks) 0 ms
+    some ((if Verif.Partial.decompOkb isSep (nats toks) ms then "D1 " else "D0 ") ++
+      " ".intercalate (sl.map fun e => s!"{e.1}:{e.2}"))
+  | [["morphs"], [sot], toks, seps, tones] =>
+    -- the morphemes of a token list: written borders win, without them a tone ends a morpheme when asked for (sot = 1)
+    let sp := nats seps
+    let tn := nats tones
+    let ms := Verif.Partial.morphemesOf (fun t => sp.contains t) (fun t => tn.contains t) (sot == "1") (nats toks)
+    some ("M " ++ " ".intercalate (ms.map fun m => ",".intercalate (m.map toString)))
   | _ => none
 
 end Verif.Driver
